@@ -46,10 +46,20 @@ class BulkPolicy:
     def __init__(self, mode="stop_eomv", rng=None):
         self.mode = mode
         self.rng = rng
+        self.calls = 0
 
     def apply(self, nonrep, rows, n_rep):
         """rows: list of repetition rows (each a list of n_rep bindings)."""
         mode = self.mode
+        self.calls += 1
+        if mode.startswith("partial_first_once"):
+            # only ONE response (the k-th, "partial_first_once:k", default the first) is
+            # cut inside its first row; all others are complete
+            k = int(mode.split(":")[1]) if ":" in mode else 1
+            mode = "partial_first" if self.calls == k else "full"
+        if mode == "one_binding":
+            # a tiny message buffer: one binding fits per response
+            mode = "partial_first_fixed1"
         if mode in ("stop_eomv", "fewer", "partial_last", "partial_first"):
             cut = []
             for row in rows:
@@ -69,6 +79,8 @@ class BulkPolicy:
         if mode == "partial_first" and self.rng is not None and n_rep > 1 and rows:
             keep = self.rng.randint(1, n_rep - 1)
             flat = flat[:keep]
+        if mode == "partial_first_fixed1" and rows:
+            flat = flat[:1]
         return list(nonrep) + flat
 
 
@@ -276,15 +288,19 @@ class Agent:
             user=auth_user,
             user_name=user,
             ctx_engine=getattr(self, "report_context_engine", None),
+            zero_timing=stat == "unknown_engine" and getattr(self, "two_step_discovery", False),
         )
 
-    def _v3_out(self, msg, pdu, level, user, user_name=None, forms=None, ctx_engine=None):
+    def _v3_out(self, msg, pdu, level, user, user_name=None, forms=None, ctx_engine=None, zero_timing=False):
         if user_name is None:
             user_name = user.name if user is not None else b""
         usm = {
             "engine_id": self.engine_id,
-            "boots": self.boots,
-            "time": self.engine_time(),
+            # RFC 3414 section 4: the unauthenticated discovery step reveals the engine
+            # id; an agent may leave boots/time at zero there and reveal them only in
+            # the authenticated notInTimeWindow report of the second step
+            "boots": 0 if zero_timing else self.boots,
+            "time": 0 if zero_timing else self.engine_time(),
             "user": user_name,
             "auth": b"\x00" * 12 if level & 1 else b"",
             "priv": b"",
@@ -308,6 +324,11 @@ class Agent:
             scoped = ber.enc_scoped_pdu(ce, msg["_ctx_name"], pdu, forms)
         if level & 2:
             key = user.priv_key(self.engine_id)
+            pad = getattr(self, "scoped_padding", b"")
+            if pad:
+                # block ciphers: the scoped PDU is padded to the block size before it is
+                # encrypted and the padding is ignored by the receiver (RFC 3414 8.1.1.2)
+                scoped = scoped + bytes(pad)
             cipher, salt = privxf.encrypt(
                 user.priv[0], key, self.engine_id, usm["boots"], usm["time"], scoped
             )
